@@ -748,6 +748,11 @@ def execute(trace: Dict[str, Any]) -> Dict[str, Any]:
         unknown = [c for c in got_calls if _key(c) not in pool]
         repeated = [c for c in got_calls if _key(c) in pool and seen[_key(c)] > pool[_key(c)]]
         missing = [c for c in must if seen.get(_key(c), 0) < need[_key(c)]]
+        if not model_agrees:
+            # which calls are reached follows from the model's evaluation; where the library's
+            # operator / macro / literal semantics differ from it -- with or without host calls
+            # (S3-meta agreed, see core_disagreement) -- that reasoning does not apply
+            unknown, missing = [], []
         detail = dict(must=must[:6], may=may[:6], got=got_calls[:8], text=rec["text"],
                       kinds=kinds_used, faults=prog["faults"])
         if unknown:
@@ -759,7 +764,7 @@ def execute(trace: Dict[str, Any]) -> Dict[str, Any]:
             violations.append(dict(base, oracle="S1-count", repeated=repeated[:4], **detail,
                                    sig={"oracle": "S1-count", "runner": prog["runner"],
                                         "detail": "more-than-once-per-reach"}))
-        elif missing and model_agrees:
+        elif missing:
             # (which calls are required follows from the model's evaluation; where the library's
             # operator/macro semantics differ from it -- with or without host calls, see
             # core_disagreement -- that reasoning does not apply)
